@@ -121,6 +121,24 @@ class Amuset(probe.Contract):
             if not cplx_pairs:
                 dist = np.abs(lam - 1)
                 c.check(self.api, 'ordered_by_distance_to_one', bool(np.all(dist[1:] >= dist[:-1] - 1e-9 * sc)), tags, {'got': lam}, prop=P)
+            # position-wise statement (also for complex spectra): the returned sequence is Re(lambda) of the eigenvalues sorted by the
+            # distance |lambda - 1| of the *complex* eigenvalue.  Zero eigenvalues (distance 1) are removed on both sides; decided
+            # only where no non-zero eigenvalue has a real part that could be taken for such a zero and the order is not a near-tie.
+            if ok and len(lam) == kept and nzw.size:
+                order = np.argsort(np.abs(nzw - 1), kind='stable')
+                exp_c = nzw[order]
+                exp_r, exp_d = np.real(exp_c), np.abs(exp_c - 1)
+                ambiguous = bool(np.any(np.abs(exp_r) <= 1e-2 * sc))
+                for a in range(len(exp_c) - 1):
+                    if exp_d[a + 1] - exp_d[a] <= 10 * tol + 1e-6 * sc and abs(exp_r[a + 1] - exp_r[a]) > tol:
+                        ambiguous = True
+                if ambiguous:
+                    c.skip('amuset_order_is_a_near_tie')
+                else:
+                    got_nz = np.array([q for q in lam if abs(q) > 1e-3 * sc])
+                    good = got_nz.shape == exp_r.shape and bool(np.all(np.abs(got_nz - exp_r) <= 10 * tol))
+                    c.check(self.api, 'sequence_is_real_part_of_spectrum_sorted_by_complex_distance_to_one', good, tags + (['complex_spectrum'] if cplx_pairs else []),
+                            {'got': lam, 'want': exp_r, 'complex_eigenvalues': exp_c}, prop=P)
             t = tens[k]
             if not (_is_tt(t) and tt_consistent(t)[0]) or cplx_pairs or not ok:
                 continue
